@@ -161,12 +161,17 @@ bool Solver::satisfy() {
 
 void Solver::refine() {
     bool solved=false;
-    // Solve shouldn't loop indefinately
-    // ... but just to make sure we limit the number of iterations
+    // Every iteration splits one block and re-merges across the constraints
+    // that the split violates, which lowers the cost.  There are only
+    // finitely many block structures and each has one cost, so the loop ends
+    // by itself however many splits the problem needs.  Solve shouldn't loop
+    // indefinitely, but just to make sure (rounding, degenerate multipliers)
+    // we limit the number of iterations that fail to lower the cost: any
+    // cycle contains such an iteration.
     unsigned maxtries=100;
+    double cost=bs->cost();
     while(!solved&&maxtries>0) {
         solved=true;
-        maxtries--;
         size_t length = bs->size();
         for (size_t i = 0; i < length; ++i)
         {
@@ -187,6 +192,9 @@ void Solver::refine() {
                 Block *l=nullptr, *r=nullptr;
                 bs->split(b,l,r,c);
                 bs->cleanup();
+                const double newcost=bs->cost();
+                if(!(newcost<cost)) maxtries--;
+                cost=newcost;
                 // split alters the block set so we have to restart
                 solved=false;
                 break;
